@@ -1,35 +1,83 @@
 import PhyModel.Proofs.ASMC5
 import PhyModel.Proofs.Gibbs
 import PhyModel.Model.SMC
+import PhyModel.Proofs.PG4
+import PhyModel.Proofs.PG9
+import PhyModel.Proofs.PG20
+import PhyModel.Proofs.PGExample
 /-! # C01 — one particle-Gibbs update of the whole tree leaves the posterior invariant
 
-Two theorems carry the argument (DESIGN.md section 6, C01):
+Two abstract theorems carry the argument (DESIGN.md section 6, C01):
 
 * `csmc_invariant` — conditional SMC with the retained path in slot 0, `m + 1` particles (any `m`),
   `T` steps (any `T`), adaptive resampling by any rule that is symmetric in the slots, weights
   carried between resampling times, final draw proportional to the weights: it leaves the level-`T`
   target invariant, exactly.  Stated for an arbitrary finite state space, proposal `q`, targets `g`,
-  under the validity conditions `ASMC.Valid` (normalised proposals, unique parents, support
-  conditions) which are what C08 establishes for PhyClone's three proposals.
+  under the validity conditions `ASMC.ValidTo sp T` (normalised proposals, unique parents, support
+  conditions, each required of the steps `t < T` only) which are what C08 establishes for PhyClone's
+  three proposals.
 * `aux_mixture_invariant` — drawing the data order σ from `u x ·` and then applying a kernel that
   leaves `π·u(·,σ)` invariant leaves `π` invariant; with `u x σ = 1/count x` on the compatible orders
   (C09) this is how `ParticleGibbsTreeSampler.sample_tree` composes the permutation draw with the
   conditional SMC sweep.
 
-The executable model `SMC.pgStep` (which the correspondence check compares, transition row by
-transition row, with the exact kernel of the real `sample_tree`) is an instance of this abstract
-scheme; the formal instantiation is the open obligation below. -/
+and the PhyClone instance is built on them:
+
+* `pg_spec_valid`, `pg_csmc_invariant` — for a fixed order σ of distinct data points, the partial trees
+  reachable from the empty tree by placing `σ[0], σ[1], …` (`PGSpec.level`, `PGSpec.states`), the
+  proposal probabilities of `Proposal.table`, the targets `pMarg·pdf` (`pOne·pdf` at the last level),
+  `parent` = removal of the last-placed data point and the relative-ESS rule form an `ASMC.Spec` that
+  satisfies `ASMC.ValidTo … σ.length`; so the conditional SMC sweep along σ leaves `pOne·pdf` invariant.
+
+* `reachable_iff_order`, `pg_invariant_abstract` — a well-formed complete tree is reached along σ
+  exactly when σ is one of its compatible orders; hence (C09: the order is uniform on the compatible
+  orders, `pdf = 1/count`) the kernel "draw σ given the tree, sweep along σ" leaves `pOne` invariant
+  on the complete trees of the data set.
+
+* `csmc_invariant_final_resample` — the same with a resampling step in front of the final draw, which is
+  what `AbstractSMCSampler.sample` does when there is a single data point.
+* `pg_csmc_exec`, `pg_step_exec`, `pg_invariant` — the executable model (`SMC.csmc`, `SMC.pgStep`:
+  list-based finite distributions, slots as a list, `multinomial(N-1)` ancestors laid out in index
+  order, weights starting at `1/N`, `lookupQ` for the proposal probability, the retained path rebuilt by
+  `SMC.restrict`) has, for every test function, the expectation given by the abstract kernel; so
+  `SMC.pgStep` — the model the correspondence check compares, transition row by transition row, with
+  the exact kernel of the real `sample_tree` — leaves `pOne` invariant. -/
 
 namespace PhyModel.Props.C01
 open Finset BigOperators
 
 /-- **Conditional SMC leaves the unnormalised target invariant**, for every number of particles,
-every number of steps, every symmetric adaptive resampling rule and every `u > 0` (the uniform
-weight given after resampling). -/
+every number of steps `T`, every symmetric adaptive resampling rule and every `u > 0` (the uniform
+weight given after resampling).  The validity conditions are asked of the `T` steps the sweep
+performs (`ASMC.ValidTo sp T`).  Asking them of every `t` (the earlier `ASMC.Valid`) is too much: at
+the last level it would demand yet another normalised proposal into a further level, and so on for
+ever, which on a finite state type forces every level to carry a single supported state — no
+branching system, PhyClone's least of all, can satisfy it. -/
 theorem csmc_invariant {X : Type} [Fintype X] [DecidableEq X] {m : ℕ}
-    (sp : ASMC.Spec (m := m) X) (u : ℚ) (hv : ASMC.Valid sp) (hu : 0 < u) (T : ℕ) (y : X) :
+    (sp : ASMC.Spec (m := m) X) (u : ℚ) (T : ℕ) (hv : ASMC.ValidTo sp T) (hu : 0 < u) (y : X) :
     ∑ x, sp.g T x * ASMC.kernel sp u T x y = sp.g T y :=
-  ASMC.csmc_invariant hv hu T y
+  ASMC.csmc_invariant_to hv hu y
+
+/-- non-vacuity: a root with two children (target masses 1 and 2, each proposed with probability
+1/2), one step, two particles — the hypotheses hold and the last level really has two supported
+states -/
+example : ASMC.ValidTo PG.exSpec 1 ∧ 0 < PG.exSpec.g 1 1 ∧ 0 < PG.exSpec.g 1 2 :=
+  ⟨PG.exSpec_valid, PG.exSpec_branches⟩
+
+/-- **Conditional SMC with a resampling step in front of the final draw** (`ASMC.kernelR`: after the
+`T` steps, "resample if the rule of step `T` fires" — slot 0 kept, the other slots drawn from the
+normalised weights, all weights reset to `u` — and only then the draw proportional to the weights) leaves
+the level-`T` target invariant as well, for every `T`.  This is the schedule of
+`AbstractSMCSampler.sample` when there is a single data point: the `_resample_swarm` that follows
+`_init_swarm` is then the last thing before the final draw. -/
+theorem csmc_invariant_final_resample {X : Type} [Fintype X] [DecidableEq X] {m : ℕ}
+    (sp : ASMC.Spec (m := m) X) (u : ℚ) (T : ℕ) (hv : ASMC.ValidTo sp T) (hu : 0 < u) (y : X) :
+    ∑ x, sp.g T x * ASMC.kernelR sp u T x y = sp.g T y :=
+  ASMC.csmc_invariant_final_resample hv hu y
+
+/-- non-vacuity: the branching three-state specification again -/
+example : ASMC.ValidTo PG.exSpec 1 ∧ 0 < PG.exSpec.g 1 1 ∧ 0 < PG.exSpec.g 1 2 :=
+  ⟨PG.exSpec_valid, PG.exSpec_branches⟩
 
 /-- **Auxiliary data order.** -/
 theorem aux_mixture_invariant {X Sg : Type} [Fintype X] [Fintype Sg] [DecidableEq X]
@@ -39,6 +87,150 @@ theorem aux_mixture_invariant {X Sg : Type} [Fintype X] [Fintype Sg] [DecidableE
     ∑ x, π x * (∑ s, u x s * P s x y) = π y :=
   Moves.aux_mixture_invariant π u P hu hP y
 
--- OBLIGATION-OPEN pg_invariant: instantiate `ASMC.Spec` with PhyClone's partial trees along a fixed order (state = `T`, `q` = `Proposal.table`, `g t` = pMarg·pdf for t < T and pOne·pdf at T, `parent` = removal of the last-placed data point), discharge `ASMC.Valid` from the C08 theorems, identify `SMC.csmc` with `ASMC.kernel`, and conclude `∑ x, pOne x * P(SMC.pgStep x = y) = pOne y`; until then the tie between the abstract theorem and `SMC.pgStep` is the exact row-by-row correspondence with the real code plus the exact `πK = π` oracle on every enumerated configuration.
+/-- non-vacuity: two states, two orders, everything uniform — the hypotheses hold (the PhyClone
+instance `pg_invariant_abstract` below is the instance that matters) -/
+example : (∀ _x : Bool, (1 : ℚ) ≠ 0 → ∑ _s : Bool, (1 / 2 : ℚ) = 1) ∧
+    (∀ _s y : Bool, ∑ _x : Bool, ((1 : ℚ) * (1 / 2)) * (1 / 2) = (fun _ : Bool => (1 : ℚ)) y * (1 / 2)) := by
+  constructor
+  · intro _ _; simp
+  · intro _ _; simp
+
+/-- **Stage 1: the PhyClone instance satisfies the hypotheses of `csmc_invariant`.**  For a data
+set with positive likelihoods, `α > 0`, outlier proposal probability in `[0,1)`, any of the three
+proposals, with or without a permutation distribution, a fixed order `σ` of distinct data points
+(`PG.Hyp`), any list `L` of trees containing the partial trees met along `σ`, any threshold `θ`
+and any number `m + 1` of particles: `PG.spec` — states `L`, `q t x x'` = probability that
+`Proposal.table dt c (t = 0) x σ[t]` gives `x'` (`PG.qT`), `g t` = point mass at the empty tree for
+`t = 0`, `κ·pMarg·pdf` on level `t` for `0 < t < |σ|`, `κ·pOne·pdf` on the last level (`PG.gT`; any
+constant `κ > 0` — with `κ = 1/N` the abstract weights are literally the code's, whose swarm starts
+with weights `1/N`), `parent`
+= removal of the last-placed data point (`PG.parentT`, C08's `recover`), `rs` = the relative-ESS rule
+(`PG.essRule`) — satisfies `ASMC.ValidTo … σ.length`. -/
+theorem pg_spec_valid (dt : Data) (c : Proposal.Cfg) (σ : List ℕ) (κ : ℚ) (L : List T) (h : PG.Hyp dt c σ)
+    (hκ : 0 < κ) (hL : ∀ x ∈ PGSpec.states c σ, x ∈ L) (θ : ℚ) (m : ℕ) :
+    ASMC.ValidTo (PG.spec dt c σ κ L hL θ m) σ.length :=
+  PG.spec_valid h hκ hL θ m
+
+/-- **Conditional SMC along a fixed order leaves `pOne·pdf` invariant** on the complete trees
+reachable along that order (`PG.gT … σ.length` vanishes off the last level). -/
+theorem pg_csmc_invariant (dt : Data) (c : Proposal.Cfg) (σ : List ℕ) (κ : ℚ) (L : List T)
+    (h : PG.Hyp dt c σ) (hκ : 0 < κ) (hL : ∀ x ∈ PGSpec.states c σ, x ∈ L) (θ : ℚ) (m : ℕ) (u : ℚ)
+    (hu : 0 < u) (y : PG.St L) :
+    ∑ x : PG.St L, PG.gT dt c σ κ σ.length x.1 * ASMC.kernel (PG.spec dt c σ κ L hL θ m) u σ.length x y
+      = PG.gT dt c σ κ σ.length y.1 :=
+  PG.pg_csmc_invariant h hκ hL θ m u hu y
+
+/-- the abstract incremental weight `g (t+1) x' / (g t x · q t x x')` is the model's
+`Proposal.incrWeight` (`Kernel.create_particle` + `_get_log_w`), times `κ` at the first step -/
+theorem pg_incr_eq_incrWeight (dt : Data) (c : Proposal.Cfg) (σ : List ℕ) (κ : ℚ) (L : List T)
+    (h : PG.Hyp dt c σ) (hκ : 0 < κ) (hL : ∀ x ∈ PGSpec.states c σ, x ∈ L) (θ : ℚ) (m : ℕ) (t : ℕ)
+    (x x' : PG.St L) (hx : x.1 ∈ PGSpec.level c σ t) (i : ℕ) (hi : σ[t]? = some i)
+    (hc : x'.1 ∈ PGSpec.children c x.1 i) :
+    ASMC.incr (PG.spec dt c σ κ L hL θ m) t x x'
+      = (if t = 0 then κ else 1) *
+        Proposal.incrWeight dt c (t == 0) (t + 1 == σ.length) x.1 x'.1
+          (PG.tprob (Proposal.table dt c (t == 0) x.1 i) x'.1) :=
+  PG.incr_eq_incrWeight h hκ hL θ m hx hi hc
+
+/-- non-vacuity (all three): two data points on a 2-point grid with outlier prior 1/2, every proposal
+kind, outlier proposal probability 1/10, permutation distribution on, order `[1, 0]`: the
+hypotheses hold, the first level has two trees and the last level six (one clone; two clones side
+by side; data point 0 above data point 1; each of the two data points, or both, in the outlier set),
+so the sum in `pg_csmc_invariant` is a genuine one -/
+example : (∀ k, PG.Hyp Props.C19.exData (PG.exCfg k) [1, 0]) ∧
+    (PGSpec.level (PG.exCfg .semi) [1, 0] 1).length = 2 ∧
+    (PGSpec.level (PG.exCfg .semi) [1, 0] 2).length = 6 := by
+  refine ⟨PG.exHyp, ?_, ?_⟩ <;> decide +kernel
+
+/-- **reachable iff compatible.**  For an order `σ` of distinct data points and a well-formed tree `x`
+(`PG.WFT`: canonical form, no empty clone, distinct data indices below the sentinel of the canonical
+order, no outliers when outlier modelling is off): `x` is among the trees obtained by placing
+`σ[0], σ[1], …` one after the other (`PGSpec.level c σ σ.length`) **iff** `σ` is one of the orders
+`RootPermutationDistribution` can draw for `x` (`Orders.allOrders`, which C09 shows to be exactly
+the compatible orders). -/
+theorem reachable_iff_order (c : Proposal.Cfg) (σ : List ℕ) (hnd : σ.Nodup) (x : T) (w : PG.WFT c x) :
+    x ∈ PGSpec.level c σ σ.length ↔ σ ∈ Orders.allOrders x.f x.out :=
+  PG.reachable_iff_order c σ hnd x w
+
+/-- non-vacuity: the chain "0 above 1" is well formed; it is reached along `[1, 0]` and not along
+`[0, 1]` -/
+example : PG.WFT (PG.exCfg .semi) PG.exChain ∧ [1, 0].Nodup ∧
+    PG.exChain ∈ PGSpec.level (PG.exCfg .semi) [1, 0] 2 ∧
+    PG.exChain ∉ PGSpec.level (PG.exCfg .semi) [0, 1] 2 := by
+  refine ⟨PG.exChain_wft _, ?_, ?_, ?_⟩ <;> decide +kernel
+
+/-- **Stage 2: the order draw composed with the sweep leaves `pOne` invariant.**  For a data set
+with data indices `D` (distinct, positive likelihoods, `α > 0`, outlier proposal probability in
+`[0,1)`, any of the three proposals, kernel built with a permutation distribution — `PG.HypD`), any
+threshold, any number `m + 1` of particles and any `u > 0`: with
+`PG.piD x = pOne x` on the complete trees of the data set (`PGSpec.finals`, 0 elsewhere),
+`PG.uOrd x σ = 1 / countCode x` on the compatible orders of `x` (0 elsewhere) and
+`PG.pgKernel x y = ∑ σ, uOrd x σ · ASMC.kernelX (PG.spec σ κ) u |σ| x y` (any `κ > 0`; `kernelX` is the
+kernel with the code's schedule: `ASMC.kernelR` when there is a single data point, `ASMC.kernel`
+otherwise), summing over all
+trees of the common finite state space `PGSpec.allStates c D`:  `∑ x, piD x · pgKernel x y = piD y`. -/
+theorem pg_invariant_abstract (dt : Data) (c : Proposal.Cfg) (D : List ℕ) (h : PG.HypD dt c D)
+    (κ : ℚ) (hκ : 0 < κ) (θ : ℚ) (m : ℕ) (u : ℚ) (hu : 0 < u) (y : PG.St (PGSpec.allStates c D)) :
+    ∑ x : PG.St (PGSpec.allStates c D), PG.piD dt c D x.1 * PG.pgKernel dt c D κ θ m u x y
+      = PG.piD dt c D y.1 :=
+  PG.pg_invariant_abstract h κ hκ θ m u hu y
+
+/-- non-vacuity: the two-point data set of the C19 example satisfies the hypotheses for every proposal
+kind; `finals` lists six complete trees for each of the two orders -/
+example : (∀ k, PG.HypD Props.C19.exData (PG.exCfg k) [0, 1]) ∧
+    (PGSpec.finals (PG.exCfg .semi) [0, 1]).length = 12 := by
+  refine ⟨PG.exHypD, ?_⟩; decide +kernel
+
+/-- **Stage 3a: the executable conditional SMC sweep is the abstract kernel.**  For an order `σ ≠ []`
+satisfying `PG.Hyp`, a start tree `x` in the last level along `σ`, `N = m + 1` particles, any threshold:
+`SMC.csmc` (first step from `N` empty particles of weight `1/N`; with a single data point the swarm is
+then resampled if the rule fires; otherwise, for every further data point
+"resample if the relative ESS is at most `θ`" — slot 0 kept, the `N - 1` ancestors of
+`multinomial(N-1, W̄)` laid out in index order, weights reset to `1/N` — "and propagate" — slot 0 moved to
+`SMC.restrict x (σ.take (t+1))`, every other slot by `Proposal.sampler`, weights multiplied by
+`Proposal.incrWeight` with the proposal probability looked up in `Proposal.table`) followed by the
+final draw proportional to the weights has, for every test function `hh`, the expectation
+`∑ y, ASMC.kernelX (PG.spec σ (1/N)) (1/N) |σ| x y · hh y`. -/
+theorem pg_csmc_exec (dt : Data) (c : Proposal.Cfg) (σ : List ℕ) (L : List T) (h : PG.Hyp dt c σ)
+    (hL : ∀ x ∈ PGSpec.states c σ, x ∈ L) (θ : ℚ) (m : ℕ) (hne : σ ≠ []) (x : PG.St L)
+    (hx : x.1 ∈ PGSpec.level c σ σ.length) (hh : T → ℚ) :
+    Dist.E (Dist.bind (SMC.csmc (PG.runOf dt c m θ) x.1 σ) SMC.select) hh
+      = ∑ y : PG.St L, ASMC.kernelX (PG.spec dt c σ (PG.uN m) L hL θ m) (PG.uN m) σ.length x y * hh y.1 := by
+  obtain ⟨path, hp, hlast⟩ := PG.exists_pathOK (L := L) h.nodup h.big hL hx
+  have := PG.csmc_E h (PG.inj_of_hyp h) hL θ m hp hne hh
+  rwa [show path σ.length = x from Subtype.ext hlast] at this
+
+/-- **Stage 3b: the executable particle-Gibbs update is the abstract mixture kernel**: for a complete
+tree `x` of the data set and every test function `hh`,
+`E[hh(SMC.pgStep x)] = ∑ y, PG.pgKernel x y · hh y` (with `κ = u = 1/N`). -/
+theorem pg_step_exec (dt : Data) (c : Proposal.Cfg) (D : List ℕ) (h : PG.HypD dt c D) (θ : ℚ) (m : ℕ)
+    (x : PG.St (PGSpec.allStates c D)) (hx : x.1 ∈ PGSpec.finals c D) (hh : T → ℚ) :
+    Dist.E (SMC.pgStep (PG.runOf dt c m θ) x.1) hh
+      = ∑ y : PG.St (PGSpec.allStates c D), PG.pgKernel dt c D (PG.uN m) θ m (PG.uN m) x y * hh y.1 :=
+  PG.pgStep_E h θ m x hx hh
+
+/-- **C01: `SMC.pgStep` leaves the `log_p_one` posterior invariant.**  For every data set with data
+indices `D` (distinct, non-empty, positive likelihoods, outlier priors in `[0,1)`), `α > 0`, each of
+the three proposals, outlier proposal probability in `[0,1)`, kernel built with a permutation
+distribution (`PG.HypD`), every number `N = m + 1 ≥ 1` of particles and every resampling threshold:
+`∑ x, pOne x · P(pgStep x = y) = pOne y`, the sum over the complete trees of the data set
+(`PG.piD` is `pOne` on `PGSpec.finals c D` and 0 on the partial trees of the common state space) and
+`P(pgStep x = y)` the expectation of the indicator of `y` under the finite distribution `SMC.pgStep`. -/
+theorem pg_invariant (dt : Data) (c : Proposal.Cfg) (D : List ℕ) (h : PG.HypD dt c D) (θ : ℚ) (m : ℕ)
+    (y : PG.St (PGSpec.allStates c D)) :
+    ∑ x : PG.St (PGSpec.allStates c D), PG.piD dt c D x.1 *
+        Dist.E (SMC.pgStep (PG.runOf dt c m θ) x.1) (fun z => if z = y.1 then 1 else 0)
+      = PG.piD dt c D y.1 :=
+  PG.pg_invariant h θ m y
+
+/-- non-vacuity (all three): the hypotheses hold on the two-point data set for every proposal kind and
+for the order `[1, 0]`; the chain "0 above 1" is a complete tree in the last level along `[1, 0]`; and
+the kernel is not degenerate there (by `#eval`, with the bootstrap proposal, two particles and threshold
+1/2, `pgStep` returns to that chain with probability 530133548587 / 705254697250 ≈ 0.75 and has six
+outcomes) -/
+example : (∀ k, PG.HypD Props.C19.exData (PG.exCfg k) [0, 1]) ∧ (∀ k, PG.Hyp Props.C19.exData (PG.exCfg k) [1, 0]) ∧
+    PG.exChain ∈ PGSpec.level (PG.exCfg .bootstrap) [1, 0] 2 ∧
+    PG.exChain ∈ PGSpec.finals (PG.exCfg .bootstrap) [0, 1] := by
+  refine ⟨PG.exHypD, PG.exHyp, ?_, ?_⟩ <;> decide +kernel
 
 end PhyModel.Props.C01
